@@ -80,6 +80,10 @@ def parse_tlc_output(text: str) -> TlcResult:
         if m2:
             res.generated = int(m2.group(1))
             res.distinct = int(m2.group(2))
+        m2b = re.match(r'^The number of states generated: (\d+)', line)      # -simulate
+        if m2b:
+            res.generated = int(m2b.group(1))
+            res.distinct = res.distinct or int(m2b.group(1))
         m3 = re.match(r'^The depth of the complete state graph search is (\d+)', line)
         if m3:
             res.depth = int(m3.group(1))
